@@ -265,7 +265,7 @@ Proof.
     assert (Ia : Inv_route a) by (eapply move_route; eauto).
     repeat dmatch H; try (inv H; exact Ia).
     unfold drop_off_trip in H. repeat dmatch H. inv H. eapply Inv_route_ext; [| | | | |exact Ia]; try reflexivity. apply rframe_same. reflexivity.
-  - (* ChargingStation *) pose proof I as (D & SK & BK & Iv).
+  - (* ChargingStation *) destruct (charge_unless_full_cases env _ _ _ _ _ H) as [->|Hc]; [exact I|]. clear H. rename Hc into H. pose proof I as (D & SK & BK & Iv).
     destruct (charge_ledger env s vid sid cid s' H) as (v0 & stn & m & c & v1 & Fv0 & Fs & _ & _ & Ev1 & L).
     cbv zeta in L. destruct L as (V & S & _ & R & B). rewrite Fv in Fv0. inv Fv0.
     destruct (mech_add_energy_same m v0 c (dt s)) as (Es & Em & Ep & Ei). cbv zeta in Es, Em, Ep, Ei.
